@@ -90,6 +90,7 @@ func loadPackages(repo string, patterns []string) (*Loaded, error) {
 var scratchMods = map[string]string{
 	modulePrefix + "/tools/god/util/format":  "module " + modulePrefix + "/tools/god/util/format\n\ngo 1.19\n",
 	modulePrefix + "/tools/god/util/stringx": "module " + modulePrefix + "/tools/god/util/stringx\n\ngo 1.19\n\nrequire golang.org/x/text v0.5.0\n",
+	modulePrefix + "/tools/god/config":       "module " + modulePrefix + "/tools/god/config\n\ngo 1.19\n",
 }
 
 func loadScratch(repo, pkgPath string) (*Loaded, error) {
